@@ -3,6 +3,7 @@
 # For each: apply to /repo, run, copy the replay of the first violation next to the patch, undo. Prints a table.
 cd /verif || exit 2
 declare -A CHECKS=(
+ [C04h]="C04" [C09h]="C09" [C10h]="C10 C06" [C11h]="C03" [C12h]="C12" [C13h]="C13" [C14h]="C14" [C15h]="C15" [C16h]="C16" [C18h]="C18" [C06h]="C06" [C08h]="C08"
  [C06g]="C06" [C07g]="C07" [C08g]="C08 C10" [C10g]="C10 C08" [C11g]="C03" [C17g]="C17" [C19g]="C17" [C20g]="C20" [C03g]="C03" [C01g]="C01" [C02g]="C03" [C05g]="C05 C12"
  [C01f]="C01 C03" [C02f]="C02" [C03f]="C03" [C04f]="C04 C02" [C05f]="C05" [C13f]="C13" [C15f]="C15" [C18f]="C18" [C12f]="C12" [C14f]="C14 C03" [C09f]="C09" [C16f]="C16"
  [C09e]="C09" [C14e]="C14 C03" [C12e]="C12" [C10e]="C10 C08" [C11e]="C11 C08" [C20e]="C20" [C08e]="C08 C10" [C06e]="C06" [C17e]="C17" [C16e]="C16" [C19e]="C19" [C07e]="C07"
